@@ -79,14 +79,22 @@ theorem alloc_sites_tested :
   Tengo.Model.VM.alloc_sites_tested
 
 /-- In every state, no simple instruction outside that set is counted as an allocation … -/
-theorem only_listed_ops_allocate (code : Code) (f : Fn) (fr : Tengo.Model.VM.Frame) (ip : Int) (op : Nat) (r : Regs)
-    (hop : op ∉ simpleAllocOps) : PostX (execSimple code f fr ip op r) (fun o => o.alloc = false) :=
-  execSimple_noalloc code f fr ip op r hop
+theorem only_listed_ops_allocate (code : Code) (fr : Tengo.Model.VM.Frame) (a0 a1 : Nat) (op : Nat) (r : Regs)
+    (hop : op ∉ simpleAllocOps) : PostX (execSimple code fr a0 a1 op r) (fun o => o.alloc = false) :=
+  execSimple_noalloc code fr a0 a1 op r hop
 
 /-- … and a return never is. -/
-theorem return_does_not_allocate (f : Fn) (ip : Int) (c : Core) :
-    PostX (execReturn f ip c) (fun o => ∀ c' a, o = .next c' a → a = false) :=
-  execReturn_noalloc f ip c
+theorem return_does_not_allocate (a0 : Nat) (c : Core) :
+    PostX (execReturn a0 c) (fun o => ∀ c' a, o = .next c' a → a = false) :=
+  execReturn_noalloc a0 c
+
+/-- Fuel is only a bound on the length of the run the model computes: any outcome other than "out of
+fuel" (halt, error, fault, allocation limit), with its log, is the same under every larger fuel. All
+statements above and below therefore speak about THE run of a program, not about a fuel-indexed family. -/
+theorem fuel_is_a_bound (code : Code) (keep fuel : Nat) (allocs : Int) (cfg : Cfg) (log : Log) (k : Nat)
+    (h : ∀ c, (run code keep fuel allocs cfg log).1 ≠ .outOfFuel c) :
+    run code keep (fuel + k) allocs cfg log = run code keep fuel allocs cfg log :=
+  run_fuel_mono code keep fuel allocs cfg log k h
 
 /-! ## C06 / C05: the frame limit -/
 
